@@ -1,7 +1,7 @@
 # C16 - requests run only with valid credentials and sufficient grants.
 # specs: specs/auth (Auth, AuthGen, AuthCache, AuthCacheGen); harness: harness/meta/zz_verif_auth_test.go,
 # harness/httpd/zz_verif_auth_test.go, shared table harness/authx/authx.go
-import os, json, re, glob, random, subprocess
+import os, json, re, glob, random, subprocess, time
 from vcheck import Infra, log, GOENV
 
 META = "services/meta"
@@ -12,7 +12,7 @@ AUTHX = {"pkg/verifx/authx": ["authx/authx.go"]}
 
 # recorded deviations of the implementation (known/C16.json); the model enables them so that the
 # rest of the matrix stays armed
-DEVS = ["cardNoPriv", "cardFromDefault", "fromDbDefault", "wildcardDefault", "cqWeak", "firstAdminMulti"]
+DEVS = ["firstAdminMulti"]
 KINDS = ["setpw", "drop", "create", "revoke", "grant", "admin", "unadmin"]
 
 
@@ -49,10 +49,10 @@ def stmt_types(ctx):
 
 
 def expect_violated(ctx, sd, module, cfg, inv, timeout=300):
-    """Non-vacuity: the witness invariant must be violated (the situation is reachable in the model)."""
+    """Non-vacuity / negative control: the invariant must be violated in the model."""
     r = ctx.tlc_check(sd, module, cfg, workers=4, timeout=timeout, expect_ok=False)
     if r["ok"] or not any(inv in v for v in r["violated"]):
-        raise Infra("vacuity guard: %s is not reachable in %s/%s (%s)" % (inv, module, cfg, r["violated"]))
+        raise Infra("vacuity guard: %s is not violated in %s/%s (%s)" % (inv, module, cfg, r["violated"]))
 
 
 def infra_records(recs, out, what):
@@ -73,25 +73,31 @@ def infra_records(recs, out, what):
 
 
 def run(ctx):
+    t0 = time.time()
+    def phase(msg):
+        log("[c16 %5.0fs] %s" % (time.time() - t0, msg))
     rnd = random.Random(ctx.seed)
     sd = ctx.spec_dir("auth")
     rp = json.load(open(ctx.replay)) if ctx.replay else None
     rpo = rp["replay"] if rp else None
     extra = {}
+    pmA, pmB = ctx.pick(("partner", "none"), ("full", "partner"))
+    # development aid: C16_STAGES=mc,authz,http,listing,cache,raft runs a subset (default: everything)
+    stages = set((os.environ.get("C16_STAGES") or "mc,authz,http,listing,cache,raft").split(","))
 
     # ------------------------------------------------------------------ 1. exhaustive model checking
-    if not ctx.replay:
-        pm = ctx.pick("partner", "full")
-        inv = ["TypeOK", "C16_ExecutedOnlyIfAllowed", "C16_FirstAdminOnly", "C16_RejectedNeverRuns", "OutcomeAgrees"]
-        ctx.write_cfg(sd, "MCA.cfg", "Spec", auth_consts("A", pm), inv)
+    if not ctx.replay and "mc" in stages:
+        inv = ["TypeOK", "C16_ExecutedOnlyIfAllowed", "C16_FirstAdminOnly", "C16_RejectedNeverRuns",
+               "C16_ListingOnlyGranted", "OutcomeAgrees"]
+        ctx.write_cfg(sd, "MCA.cfg", "Spec", auth_consts("A", pmA), inv)
         ctx.tlc_check(sd, "Auth", "MCA.cfg", workers=8, timeout=1500)
-        ctx.write_cfg(sd, "MCB.cfg", "Spec", auth_consts("B", pm), inv)
-        ctx.tlc_check(sd, "Auth", "MCB.cfg", workers=8, timeout=900)
+        ctx.write_cfg(sd, "MCB.cfg", "Spec", auth_consts("B", pmB), inv)
+        ctx.tlc_check(sd, "Auth", "MCB.cfg", workers=8, timeout=1500)
         # the repaired implementation (no deviation) satisfies the property without exception
         ctx.write_cfg(sd, "MCS.cfg", "Spec", auth_consts("B", "none", devs=[]), inv + ["C16_ExecutedOnlyIfAllowedStrict"])
         ctx.tlc_check(sd, "Auth", "MCS.cfg", workers=8, timeout=900)
-        for w in ("NeverRuns", "NeverTainted"):
-            ctx.write_cfg(sd, "W%s.cfg" % w, "Spec", auth_consts("B", "none"), [w])
+        for w in ctx.pick(["NeverTainted"], ["NeverRuns", "NeverTainted"]):
+            ctx.write_cfg(sd, "W%s.cfg" % w, "Spec", auth_consts("W", "none"), [w])
             expect_violated(ctx, sd, "Auth", "W%s.cfg" % w, w)
         cinv = ["TypeOK", "C16_OldCredentialDiesOnArrival", "C16_OldPrivilegeDiesOnArrival", "CacheSound"]
         cc = cache_consts(*ctx.pick((3, 2, False), (3, 3, False)))
@@ -100,89 +106,114 @@ def run(ctx):
         # negative control: without the lookup check the model has the F17 behaviour
         ctx.write_cfg(sd, "MCC0.cfg", "Spec", cache_consts(2, 1, True, fixed=False), cinv)
         expect_violated(ctx, sd, "AuthCache", "MCC0.cfg", "C16_OldCredentialDiesOnArrival")
-        for w in ("NeverCacheHit", "NeverStaleEntry", "NeverRejectsOld"):
+        for w in ctx.pick(["NeverStaleEntry"], ["NeverCacheHit", "NeverStaleEntry", "NeverRejectsOld"]):
             ctx.write_cfg(sd, "W%s.cfg" % w, "Spec", cache_consts(2, 1, True), [w])
             expect_violated(ctx, sd, "AuthCache", "W%s.cfg" % w, w)
         ctx.cov["exhaustive"] = True
+        phase("model checking done: %d states" % ctx.cov["states"])
 
     # ------------------------------------------------------------------ 2. the matrix on the real authorizers / handler
-    types = stmt_types(ctx)
     def gen_groups():
-        gs = []
-        for fam in ("A", "B"):
-            ctx.write_cfg(sd, "Gen%s.cfg" % fam, "GSpec", auth_consts(fam, ctx.pick("partner", "full")), extra="INVARIANT Emit")
-            gs += ctx.tlc_generate(sd, "AuthGen", "Gen%s.cfg" % fam, exhaustive=True, marker="CASE", timeout=1200)
-        ctx.write_cfg(sd, "GenCls.cfg", "GSpec", auth_consts("B", "none"), extra="INVARIANT EmitClasses")
-        classes = ctx.tlc_generate(sd, "AuthGen", "GenCls.cfg", exhaustive=True, marker="CLASSES", timeout=300)[0]
-        return gs, classes
+        fam = {}
+        classes = listing = None
+        for f, pm in (("A", pmA), ("B", pmB)):
+            ctx.write_cfg(sd, "Gen%s.cfg" % f, "GSpec", auth_consts(f, pm), extra="INVARIANT Emit")
+            fam[f] = []
+            for x in ctx.tlc_generate(sd, "AuthGen", "Gen%s.cfg" % f, exhaustive=True, marker="CASE", timeout=1800):
+                k = x.pop("k")
+                if k == "case":
+                    fam[f].append(x)
+                elif k == "classes":
+                    classes = x["classes"]
+                elif k == "listing":
+                    listing = x["users"]
+        if not classes or not listing:
+            raise Infra("AuthGen did not print the class list / the listing table")
+        return fam, classes, listing
 
-    def run_matrix(pkg, files, test, inp, label):
-        p = ctx.write_json("matrix-%s.json" % label, inp)
-        recs, out, rc = ctx.go_test(pkg, files, "^%s$" % test, env={"VERIF_IN": p}, timeout=1500, label=label,
+    def run_go(pkg, files, test, inp, label):
+        p = ctx.write_json("in-%s-%s.json" % (test, label), inp)
+        recs, out, rc = ctx.go_test(pkg, files, "^%s$" % test, env={"VERIF_IN": p}, timeout=1800, label=label,
                                     extra_pkgs=AUTHX)
         infra_records(recs, out, test)
         return recs, out, rc
 
     def matrix(pkg, files, test, inp):
         def confirm(r):
-            recs, out, rc = run_matrix(pkg, files, test, {"only": r, "groups": [], "classes": [], "stmt_types": []}, "confirm")
+            recs, out, rc = run_go(pkg, files, test, {"only": r}, "confirm")
             return any(x.get("k") == "mismatch" for x in recs)
-        recs, out, rc = run_matrix(pkg, files, test, inp, "matrix")
+        recs, out, rc = run_go(pkg, files, test, inp, "matrix")
         return ctx.process(recs, out, rc, test, confirm)
 
-    is_matrix_replay = rpo is not None and "group" in rpo
-    is_cache_replay = rpo is not None and "behaviour" in rpo
-    if not is_cache_replay:
-        if is_matrix_replay:
-            inp = {"only": rpo, "groups": [], "classes": [], "stmt_types": []}
-        else:
-            groups, classes = gen_groups()
-            inp = {"groups": groups, "classes": classes, "stmt_types": types}
-            extra["matrix_groups"] = len(groups)
-            extra["statement_types"] = len(types)
+    kind = None
+    if rpo is not None:
+        kind = "cache" if "behaviour" in rpo else "listing" if "listing" in rpo else "matrix"
+    if kind in (None, "matrix", "listing") and (ctx.replay or stages & {"authz", "http", "listing"}):
         level = rp["signature"].split(":")[0] if rp else None
-        if level in (None, "authz", "dev"):
-            d = matrix(META, META_FILES, "TestVerifAuthMatrix", inp)
+        if kind == "matrix":
+            inp_meta = inp_http = {"only": rpo}
+        elif kind == "listing":
+            inp_meta = inp_http = None
+        else:
+            fam, classes, listing = gen_groups()
+            groups = fam["A"] + fam["B"]
+            types = stmt_types(ctx)
+            inp_meta = {"groups": groups, "classes": classes, "stmt_types": types}
+            # HTTP level: everything (thorough) / all of family B (every credential case) and a seeded part of A (quick)
+            hg = groups if not ctx.quick() else fam["B"] + [g for g in fam["A"] if rnd.random() < 0.4]
+            inp_http = {"groups": hg, "classes": classes, "stmt_types": types}
+            extra.update(matrix_groups=len(groups), matrix_groups_http=len(hg), statement_types=len(types))
+            phase("matrix generated: %d groups (A %d, B %d), %d statement types" % (len(groups), len(fam["A"]), len(fam["B"]), len(types)))
+        if inp_meta is not None and level in (None, "authz", "dev") and (ctx.replay or "authz" in stages):
+            d = matrix(META, META_FILES, "TestVerifAuthMatrix", inp_meta)
             extra["authorizer_cases"] = d.get("cases", 0)
             extra["statement_instances"] = d.get("instances", 0)
             ctx.cov["traces_validated_against_impl"] += d.get("cases", 0)
-        if level in (None, "http", "dev"):
-            d = matrix(HTTPD, HTTPD_FILES, "TestVerifAuthHTTP", inp)
+            phase("authorizer matrix: %s" % {k: d.get(k) for k in ("cases", "granted", "denied", "instances")})
+        if inp_http is not None and level in (None, "http", "dev") and (ctx.replay or "http" in stages):
+            d = matrix(HTTPD, HTTPD_FILES, "TestVerifAuthHTTP", inp_http)
             extra["http_requests"] = d.get("requests", 0)
             extra["http_executed"] = d.get("executed", 0)
             ctx.cov["traces_validated_against_impl"] += d.get("requests", 0)
+            phase("http matrix: %s" % {k: d.get(k) for k in ("requests", "executed", "status401", "status403")})
+        # statements that list across databases, through the real coordinator.StatementExecutor
+        if kind == "listing" or (kind is None and "listing" in stages):
+            linp = {"listing": listing} if kind is None else rpo
+            def lconfirm(r):
+                recs, out, rc = run_go(HTTPD, HTTPD_FILES, "TestVerifAuthListing", r, "confirm")
+                return any(x.get("k") == "mismatch" for x in recs)
+            recs, out, rc = run_go(HTTPD, HTTPD_FILES, "TestVerifAuthListing", linp, "listing")
+            d = ctx.process(recs, out, rc, "TestVerifAuthListing", lconfirm)
+            extra["listing_requests"] = d.get("requests", 0)
+            ctx.cov["traces_validated_against_impl"] += d.get("requests", 0)
+            phase("listing: %s" % {k: d.get(k) for k in ("requests", "listed")})
 
     # ------------------------------------------------------------------ 3. cache interleavings on the real client
-    def run_cache(test, behs, label):
-        p = ctx.write_json("cache-%s.json" % label, {"behaviours": behs, "init_pw": "p1"})
-        recs, out, rc = ctx.go_test(META, META_FILES, "^%s$" % test, env={"VERIF_IN": p}, timeout=1500, label=label,
-                                    extra_pkgs=AUTHX)
-        infra_records(recs, out, test)
-        return recs, out, rc
-
     def cache(test, behs):
         def confirm(r):
-            recs, out, rc = run_cache(r.get("test", test), [r["behaviour"]], "confirm")
+            recs, out, rc = run_go(META, META_FILES, r.get("test", test), {"behaviours": [r["behaviour"]], "init_pw": "p1"}, "confirm")
             return any(x.get("k") == "mismatch" for x in recs)
-        recs, out, rc = run_cache(test, behs, test)
+        recs, out, rc = run_go(META, META_FILES, test, {"behaviours": behs, "init_pw": "p1"}, "replay")
         return ctx.process(recs, out, rc, test, confirm)
 
-    if is_cache_replay:
+    if kind == "cache":
         cache(rpo.get("test", "TestVerifAuthCache"), [rpo["behaviour"]])
-    elif not ctx.replay:
-        # every interleaving of two calls with one change; two changes: all (thorough) / a seeded sample (quick)
+    elif kind is None and "cache" in stages:
+        # every interleaving of two calls with one change
         ctx.write_cfg(sd, "GC1.cfg", "GSpec", cache_consts(2, 1, True), extra="INVARIANT Emit")
         b1 = ctx.tlc_generate(sd, "AuthCacheGen", "GC1.cfg", exhaustive=True, timeout=600)
+        # two changes: every interleaving (thorough) / a seeded sample of them (quick)
         ctx.write_cfg(sd, "GC2.cfg", "GSpec", cache_consts(2, 2, True), extra="INVARIANT Emit")
-        b2 = ctx.tlc_generate(sd, "AuthCacheGen", "GC2.cfg", exhaustive=True, timeout=900)
+        b2 = ctx.tlc_generate(sd, "AuthCacheGen", "GC2.cfg", exhaustive=True, timeout=1800)
         n2 = len(b2)
         if ctx.quick():
-            b2 = rnd.sample(b2, min(len(b2), 2500))
+            b2 = rnd.sample(b2, min(n2, 2500))
         # changes that are committed but delivered later (batched installs), three calls: simulation
         ctx.write_cfg(sd, "GC3.cfg", "GSpec", cache_consts(3, 3, False), extra="INVARIANT Emit")
-        b3 = ctx.tlc_generate(sd, "AuthCacheGen", "GC3.cfg", num=ctx.pick(400, 4000), depth=40, timeout=600)
-        b3 = b3[:ctx.pick(1200, 12000)]
+        b3 = ctx.tlc_generate(sd, "AuthCacheGen", "GC3.cfg", num=ctx.pick(500, 6000), depth=40, timeout=900)[:ctx.pick(1000, 12000)]
+        phase("cache behaviours generated: %d + %d + %d" % (len(b1), len(b2), len(b3)))
         d = cache("TestVerifAuthCache", b1 + b2 + b3)
+        phase("cache replay: %s" % {k: d.get(k) for k in ("behaviours", "steps", "accepting_calls")})
         extra.update(cache_behaviours_exhaustive_1change=len(b1), cache_behaviours_2changes=len(b2),
                      cache_behaviours_2changes_total=n2, cache_behaviours_deferred_install=len(b3),
                      cache_steps=d.get("steps", 0), cache_accepting_calls=d.get("accepting_calls", 0))
@@ -190,9 +221,13 @@ def run(ctx):
         # a sample through a real single-node meta service (raft, the client's own command path)
         pool = [b for b in b1 + b2 if any(s["a"] == "change" for s in b)]
         rb = rnd.sample(pool, min(len(pool), ctx.pick(60, 400)))
-        d = cache("TestVerifAuthCacheRaft", rb)
-        extra["cache_behaviours_raft"] = d.get("behaviours", 0)
-        ctx.cov["traces_validated_against_impl"] += d.get("behaviours", 0)
+        if "raft" in stages:
+            d = cache("TestVerifAuthCacheRaft", rb)
+            extra["cache_behaviours_raft"] = d.get("behaviours", 0)
+            ctx.cov["traces_validated_against_impl"] += d.get("behaviours", 0)
+            phase("raft replay: %s" % d.get("behaviours"))
+    if stages != {"mc", "authz", "http", "listing", "cache", "raft"}:
+        extra["stages_run"] = sorted(stages)
 
     return ctx.finish("model_checking", extra, assumptions=[
         "the oracle table `needs` of Auth.tla (which database a statement form reads/writes, which statements are administrative) is written from the InfluxDB 1.8 authorization documentation and the InfluxQL reference; five entries the documentation leaves open were calibrated once against influxql.RequiredPrivileges and frozen (header of Auth.tla)",
